@@ -3,8 +3,8 @@ import os, json
 from . import common as C
 from . import par
 
-GRAPHS = ["chain", "diamond", "missingleaf", "badleaf", "binaryleaf"]
-PROGS = ["dA_lA", "dA_lB", "dA_dB_lA_lA", "dD_dB_lD_lD", "lA_lA", "lC_dA_lC"]
+GRAPHS = ["chain", "diamond", "missingleaf", "badleaf", "binaryleaf", "headeronly"]
+PROGS = ["dA_lA", "dA_lB", "dA_dB_lA_lA", "dD_dB_lD_lD", "lA_lA", "lC_dA_lC", "lD_dD_lD_lD"]
 RPROGS = ["lA_rA_lA", "dA_rA_lA_lA", "lC_rC_lC_lC", "dB_rA_lB_lA"]        # with refresh (terminology loader only)
 CACHES = ["empty", "warm", "stale"]
 MC = {"quick": [("chain", "dA_lA", "empty"), ("diamond", "dA_lA", "warm"), ("chain", "dD_dB_lD_lD", "stale"), ("missingleaf", "dD_dB_lD_lD", "empty"),
